@@ -576,7 +576,62 @@ func scSnapshotRace(d *Driver) {
 		d.settle(100)
 		return
 	}
+	if pct(d.r, 35) {
+		scAppendHeldOverCompaction(d, l, d.pick(d.others(l.ID)))
+		return
+	}
 	scTwoSnapshotsRacing(d, l, d.pick(cand))
+}
+
+// a follower that was cut off is caught up from the leader's *stable* log; that append is still travelling
+// when the leader's application snapshots and compacts at an index inside it (entries handed out by
+// Storage.Entries must stay what they were)
+func scAppendHeldOverCompaction(d *Driver, l *AppNode, f uint64) {
+	d.frozenApply[f] = false
+	d.runNode(f)
+	d.isolate([]uint64{f})
+	d.dropWhere(func(m *pb.Message) bool { return m.GetTo() == f || m.GetFrom() == f })
+	d.propose(l, 3+d.r.Intn(3), false)
+	d.waitFor(60, func() bool {
+		st, perr := safeState(l.RN)
+		return perr != "" || (st.Commit == st.LastIndex && st.Applied == st.Commit)
+	})
+	if d.c.up(l.ID) == nil || !safeIsLeader(l.RN) {
+		d.heal()
+		d.settle(100)
+		return
+	}
+	d.holdIf = func(m *pb.Message) bool { return m.GetType() == pb.MsgApp && m.GetTo() == f && len(m.GetEntries()) > 0 }
+	d.heal()
+	onWire := func() bool {
+		for _, nm := range d.c.Net {
+			if d.holdIf != nil && d.holdIf(nm.M) && len(nm.M.GetEntries()) > 1 {
+				return true
+			}
+		}
+		return false
+	}
+	p := calm
+	p.Tick, p.Propose = 0, 0
+	for k := 0; k < 25 && !onWire(); k++ {
+		d.c.Do(Step{Act: "Tick", Node: l.ID})
+		d.with(p, 12)
+	}
+	dbg("held-append: catch-up append on the wire:", onWire())
+	if lo, hi := d.c.snapBounds(l); hi >= lo && hi > 1 {
+		k := hi
+		if hi > lo {
+			k = lo + uint64(d.r.Intn(int(hi-lo)+1))
+		}
+		if d.c.Do(Step{Act: "Snapshot", Node: l.ID, K: k}) {
+			d.c.Do(Step{Act: "Compact", Node: l.ID, K: k})
+		}
+	}
+	d.with(p, 6)
+	d.releaseHolds()
+	p.Tick = 8
+	d.with(p, 80)
+	d.settle(60)
 }
 
 // two snapshots race at an asynchronous follower: the write of snapshot A is with f's (slow) append thread
